@@ -69,7 +69,7 @@ def ofrOfUnrepaired (cfg : Cfg) (obj : J) : OFR :=
   { ofrOf cfg obj with
     fr := match cfg.filter with
       | none => .nil
-      | some f => .other (objOnly ((f.eval obj).getD .null)) }
+      | some f => .other ((f.evalLegacy obj).getD .null) }
 
 /-! ## BindingContext -/
 
